@@ -205,6 +205,12 @@ func H_C08_roundtrip() {
 	ho, err := entry.ToMultihashWithIO(ctx, o, api, nil, io)
 	vx.Assume(err == nil)
 	vx.Assert("C08", !ho.Equals(h), "entries that differ in a serialised field have different identifiers")
+	// decoding does not depend on what the process decoded before: the second entry reads back with its own fields
+	d2, err := entry.FromMultihashWithIO(ctx, api, ho, ids[0].Provider, io)
+	vx.Assert("C08", err == nil && d2 != nil, "reading a second entry back succeeds")
+	if err == nil && d2 != nil {
+		assertSameFields("C08", d2, o, "write/read of a second entry in the same process")
+	}
 	vx.Cover("mutated-" + mutNames[k])
 }
 
